@@ -308,6 +308,9 @@ T __CPROVER_uninterpreted_int2_5_5(T, T, T, T, T, T, T, T, T, T, T);
 #define BS_SEL(q, u) u
 #endif
 
+/* spline a is (at the ghost interval gj) the registered operand o of a table-rendered abstract operator */
+#define IS_OPERAND(a, o) (SP_N(a) == SP_N(o) && same_grid_obj(SP_GRID(a), SP_GRID(o)) && S_START((a)._support) == S_START((o)._support) && S_END((a)._support) == S_END((o)._support))
+
 /* ---- ghost prefix sums for the accumulation loops of the forms: BS_SUM(k) is the sum of the first k terms */
 struct bs_sum_t { T s[BS_CAP + 1]; } BS_SUMS;
 #define BS_SUM(k) (BS_SUMS.s[k])
